@@ -176,15 +176,19 @@ def gen_clobber(fmts):
     """nothing of a clobbered predecessor survives; empty-variable files are trimmed at close"""
     progs = []
     for fmt in fmts:
-        for kind in ('regular', 'symlink'):
+        for kind in ('regular', 'symlink', 'prefix'):
             for nocl in (0, 1):
                 for withvar in (0, 1):
                     p = Prog('CL-f%d-%s-nc%d-v%d' % (fmt, kind, nocl, withvar), 1, fmt, create=False)
-                    if kind == 'regular': p.case.op('*', 'mkfile', path='a.nc', size=3000, fillbyte=0xAA)
+                    # 'prefix': the file is named with an MPI-IO file-system prefix ("ufs:/dir/a.nc"), which the library strips for its own POSIX
+                    # calls and which only ROMIO understands: these cases run on Open MPI's ROMIO component
+                    cpath = 'ufs:a.nc' if kind == 'prefix' else 'a.nc'
+                    if kind == 'prefix': p.case.opts['mpiio'] = 'romio321'
+                    if kind in ('regular', 'prefix'): p.case.op('*', 'mkfile', path='a.nc', size=3000, fillbyte=0xAA)
                     else:
                         p.case.op('*', 'mkfile', path='target.bin', size=3000, fillbyte=0xAA)
                         p.case.op('*', 'mkfile', path='a.nc', symlink='target.bin')
-                    ln = p.case.op('*', 'create', f=0, path='a.nc', fmt=fmt, noclobber=nocl)
+                    ln = p.case.op('*', 'create', f=0, path=cpath, fmt=fmt, noclobber=nocl)
                     p.rc_lines.append((ln, D.NC_EEXIST if nocl else 0))
                     if not nocl:
                         p.do(dict(op='def_dim', name='x', len=2))
@@ -203,6 +207,10 @@ def main(tier=None):
     thorough = ck.tier == 'thorough'
     progs = gen((1, 2, 5), thorough, (1, 2)) + gen_clobber((1, 2, 5))
     results = runner.run_cases(b['vx'], [p.case for p in progs], batch=60)
+    # the cases that ask for another MPI-IO component run in jobs of their own
+    special = [i for i, p in enumerate(progs) if p.case.opts.get('mpiio')]
+    if special:
+        for i, r in zip(special, runner.run_cases(b['vx'], [progs[i].case for i in special], batch=12)): results[i] = r
     ncp = 0
     for p, r in zip(progs, results):
         ck.cov['evaluations'] += 1; ncp += len(p.cps)
@@ -263,7 +271,7 @@ def main(tier=None):
     ck.cov['checkpoints'] = ncp
     ck.cov['rule'] = ('product of dimension sets x global-attribute sets (every type, zero/odd lengths, UTF-8 names) x variable sets (fixed/record in every order, odd element sizes, exactly-one-record-variable) '
                       'x 8 alignment configurations (info hints, ncmpi__enddef arguments, PNETCDF_HINTS) x histories (enddef; +write+sync; +redef adding objects; +data-mode rename/put_att; independent appends; redef into a gap; renames to names whose byte length changes under NFC normalisation) x formats x np in {1,2} '
-                      '(quick: a 1/8 cyclic sub-product); at every up-to-date point the file bytes are decoded by engine/cdf.py and compared with the model and the layout invariants; plus the headers of files whose last fixed-size / last record variable exceeds 2^32-4 bytes (vsize saturation) in every format that allows it; distinct_nontrivial = distinct file images')
+                      '(quick: a 1/8 cyclic sub-product); at every up-to-date point the file bytes are decoded by engine/cdf.py and compared with the model and the layout invariants; plus the headers of files whose last fixed-size / last record variable exceeds 2^32-4 bytes (vsize saturation) in every format that allows it; clobbering a longer predecessor (regular file, symbolic link, and - on the ROMIO component of Open MPI - a path with the MPI-IO prefix ufs:) leaves none of its bytes; distinct_nontrivial = distinct file images')
     ck.sample(progs[0].case.text()[:1500]); ck.sample(progs[len(progs) // 2].case.text()[:1800])
     ck.assumptions += ['the precedence between MPI_Info hints and ncmpi__enddef arguments is documented inconsistently; only the reported effective values are checked against the layout', 'codec engine/cdf.py is the trusted base (self-tested, cross-checked with ncvalidator)']
     runner.cleanup()
